@@ -91,8 +91,26 @@ func RunLockCase(rng *rand.Rand) *AsyncResult {
 		meta.Inputs[id] = int64(11 + i) // all different
 	}
 	v1, v2 := meta.Inputs[l1], meta.Inputs[l2]
+	// Variant (n=7 only, where a PREPARE quorum for v2 exists without it): one of the members that
+	// will commit v2 in round 2 fails its local comparison of v2 (chain-split check). It does not
+	// PREPARE v2 but still sees the PREPARE quorum and COMMITs — and must still report v2 as its
+	// prepared value in later ROUND-CHANGEs, otherwise a null quorum can override the decision.
+	cfail := map[[2]int64]bool{}
+	if n == 7 && rng.Intn(2) == 0 {
+		var ys []int64
+		for _, id := range honest {
+			if id != l1 && id != l2 {
+				ys = append(ys, id)
+			}
+		}
+		y := ys[rng.Intn(len(ys))]
+		cfail[[2]int64{y, v2}] = true
+		meta.CompareFailPairs = append(meta.CompareFailPairs, [2]int64{y, v2})
+		meta.Policy = "lock-override/compare-fail-committer"
+	}
 	cfg := Config{N: n, Instance: inst, FIFOLimit: 100, Honest: honest, TimerKind: meta.Timer,
-		Duty: core.Duty{Slot: uint64(inst), Type: core.DutyAttester}}
+		Duty:        core.Duty{Slot: uint64(inst), Type: core.DutyAttester},
+		CompareFail: func(p, v int64) bool { return cfail[[2]int64{p, v}] }}
 	s := New(cfg)
 	vals := []int64{v1, v2, 91}
 	adv := NewAdversary(s, byz, vals, rand.New(rand.NewSource(rng.Int63()))) //nolint:gosec // reproducible
@@ -114,6 +132,15 @@ func RunLockCase(rng *rand.Rand) *AsyncResult {
 		if id != l2 {
 			cands = append(cands, id)
 		}
+	}
+	if len(meta.CompareFailPairs) > 0 {
+		var c2 []int64
+		for _, id := range cands {
+			if id != meta.CompareFailPairs[0][0] {
+				c2 = append(c2, id)
+			}
+		}
+		cands = c2
 	}
 	x := cands[rng.Intn(len(cands))]
 	// round 1: PRE-PREPARE(v1) reaches q-f honest nodes including X; their PREPAREs (+ Byzantine ones) reach only X
@@ -147,15 +174,6 @@ func RunLockCase(rng *rand.Rand) *AsyncResult {
 	// its PRE-PREPARE(v2) reaches everybody but X; all of them prepare and commit v2
 	others := func(id int64) bool { return id != x }
 	r.deliverWhere(func(pd Pending) bool { return pd.M.Typ == qbft.MsgPrePrepare && pd.M.Rnd == 2 && others(pd.To) })
-	for _, id := range honest {
-		if !others(id) {
-			continue
-		}
-		for _, b := range byz {
-			r.Inject(id, adv.mk(qbft.MsgPrepare, b, 2, v2, 0, 0, nil))
-		}
-	}
-	r.deliverWhere(func(pd Pending) bool { return pd.M.Typ == qbft.MsgPrepare && pd.M.Rnd == 2 && others(pd.To) })
 	// COMMITs reach exactly one node D, which decides v2
 	d := l2
 	if rng.Intn(2) == 0 {
@@ -167,6 +185,28 @@ func RunLockCase(rng *rand.Rand) *AsyncResult {
 		}
 		d = ds[rng.Intn(len(ds))]
 	}
+	// In the compare-fail variant one more member W prepares v2 but never sees the PREPARE quorum, so
+	// that X, Y, W and the coalition form a ROUND-CHANGE quorum in which only Y knows about v2.
+	w := int64(-1)
+	if len(meta.CompareFailPairs) > 0 {
+		var ws []int64
+		for _, id := range honest {
+			if id != x && id != d && id != meta.CompareFailPairs[0][0] {
+				ws = append(ws, id)
+			}
+		}
+		w = ws[rng.Intn(len(ws))]
+	}
+	seesQuorum := func(id int64) bool { return others(id) && id != w }
+	for _, id := range honest {
+		if !seesQuorum(id) {
+			continue
+		}
+		for _, b := range byz {
+			r.Inject(id, adv.mk(qbft.MsgPrepare, b, 2, v2, 0, 0, nil))
+		}
+	}
+	r.deliverWhere(func(pd Pending) bool { return pd.M.Typ == qbft.MsgPrepare && pd.M.Rnd == 2 && seesQuorum(pd.To) })
 	for _, b := range byz {
 		r.Inject(d, adv.mk(qbft.MsgCommit, b, 2, v2, 0, 0, nil))
 	}
@@ -191,6 +231,9 @@ func RunLockCase(rng *rand.Rand) *AsyncResult {
 	sort.Slice(und, func(i, j int) bool { return und[i] < und[j] })
 	for k := 0; k < 3+rng.Intn(4); k++ {
 		pp := adv.prePrepare(l3, 3, rng.Intn(3) == 0)
+		if k == 0 {
+			pp = adv.prePrepareLowest(l3, 3) // the strongest well-formed attack first
+		}
 		if pp == nil {
 			continue
 		}
